@@ -7,3 +7,62 @@ From IRV Require Import Base.Exn C12.Model C12.GenModel Gen.C12Gen.
 
 Theorem gen_sort_is_model : forall gr, gsort gen_src gr = sort_graph gr.
 Proof. apply gsort_eq_model; intros; reflexivity. Qed.
+
+(* ---- step 1: the translated predecessor-collection loop computes the model's predecessor list ----------- *)
+From Coq Require Import Arith Lia.
+From IRV Require Import C12.Proofs1 C12.Proofs2 C12.Proofs3.
+Import ListNotations.
+
+Local Arguments gen_add : simpl never.
+
+Lemma gen_add_list scope (l : list nat) : forall acc,
+  fold_left (fun acc q => gen_add scope acc (Some q)) l acc = acc ++ filter scope l.
+Proof.
+  induction l as [|q l IH]; intros acc; simpl; [rewrite app_nil_r; reflexivity|].
+  rewrite IH. unfold gen_add. destruct (scope q); [rewrite <- app_assoc; reflexivity | reflexivity].
+Qed.
+
+Lemma gen_inputs_spec scope (ins : list pyin) : forall acc,
+  gen_inputs scope acc ins = acc ++ filter scope (somes (map view_in ins)).
+Proof.
+  unfold gen_inputs. induction ins as [|iv ins IH]; intros acc; simpl; [rewrite app_nil_r; reflexivity|].
+  rewrite IH. destruct iv as [|[q|]]; unfold gen_add; simpl; try reflexivity.
+  destruct (scope q); [rewrite <- app_assoc; reflexivity | reflexivity].
+Qed.
+
+Lemma gen_add_lists scope (ls : list (list nat)) : forall acc,
+  fold_left (fun acc l => fold_left (fun acc q => gen_add scope acc (Some q)) l acc) ls acc
+  = acc ++ filter scope (concat ls).
+Proof.
+  induction ls as [|l ls IH]; intros acc; simpl; [rewrite app_nil_r; reflexivity|].
+  rewrite IH, gen_add_list, filter_app, <- app_assoc. reflexivity.
+Qed.
+
+Lemma gen_attrs_spec scope (ats : list pyat) : forall acc,
+  gen_attrs scope acc ats = acc ++ filter scope (concat (concat (map view_at ats))).
+Proof.
+  unfold gen_attrs. induction ats as [|a ats IH]; intros acc; [simpl; rewrite app_nil_r; reflexivity|].
+  cbn [fold_left map concat]. rewrite IH, concat_app, filter_app, app_assoc. f_equal.
+  destruct a as [| |l|ls]; cbn [view_at concat].
+  - rewrite app_nil_r. reflexivity.
+  - rewrite app_nil_r. reflexivity.
+  - rewrite gen_add_list, app_nil_r. reflexivity.
+  - apply gen_add_lists.
+Qed.
+
+Theorem gen_collect_spec scope ins ats :
+  gen_collect scope ins ats = filter scope (somes (map view_in ins) ++ concat (concat (map view_at ats))).
+Proof.
+  unfold gen_collect. rewrite gen_attrs_spec, gen_inputs_spec, filter_app. reflexivity.
+Qed.
+
+(* for a node n of the scope whose Python-level view is (ins, ats) *)
+Theorem gen_collect_is_model gr g n ins ats :
+  NoDup (ids gr) -> In (g, n) (placed gr) ->
+  map view_in ins = nins n ->
+  concat (map view_at ats) = map (fun s : nat * list node => map nid (snd s)) (nsubs n) ->
+  gen_collect (fun p => memb p (ids gr)) ins ats = preds_of (entries gr) (nid n).
+Proof.
+  intros Hnd Hpl Hi Ha. rewrite gen_collect_spec, Hi, Ha.
+  rewrite (preds_placed gr g n Hnd Hpl). reflexivity.
+Qed.
